@@ -6,14 +6,19 @@ Record ecase := mkECase {
   ec_pre : chart;
   ec_op : eop;
   ec_res : eres;        (* implementation *)
-  ec_post : chart       (* implementation *)
+  ec_post : chart;      (* implementation *)
+  ec_queries : list (name * (Z * (list name * list name)))
+                        (* implementation, after the call: depth_for, ancestors_for, descendants_for of every state
+                           (the same queries were also made BEFORE the call, so that anything the implementation
+                           remembers from earlier queries is in play) *)
 }.
 
 Definition bitN (b : bool) (v : N) : N := if b then 0%N else v.
 
 (* 1: outcome differs; 2: resulting chart differs (dictionary orders included);
    4: Pb -- a successful edit of a sound chart gives an unsound chart (implementation output);
-   8: Pb -- the edit raised StatechartError/ValueError but changed the chart (implementation output) *)
+   8: Pb -- the edit raised StatechartError/ValueError but changed the chart (implementation output);
+   16: the traversal queries answered by the implementation after the call are not those of the resulting chart *)
 Definition check_ecase (c : ecase) : N :=
   let '(m, r) := apply_eop (ec_pre c) (ec_op c) in
   (bitN (eres_eqb r (ec_res c)) 1
@@ -22,7 +27,12 @@ Definition check_ecase (c : ecase) : N :=
    + bitN (match ec_res c with
            | EStatechartError | EValueError => chart_eqb (ec_pre c) (ec_post c)
            | _ => true
-           end) 8)%N.
+           end) 8
+   + bitN (forallb (fun q => let n := fst q in
+                             Z.eqb (depth_for (ec_post c) n) (fst (snd q))
+                             && strs_eqb (ancestors_for (ec_post c) n) (fst (snd (snd q)))
+                             && strs_eqb (descendants_for (ec_post c) n) (snd (snd (snd q))))
+                   (ec_queries c)) 16)%N.
 
 Fixpoint check_efrom (i : N) (cs : list ecase) : list (N * N) :=
   match cs with
